@@ -44,6 +44,7 @@ class Check:
         self.rng = random.Random(seed)
         self.errors = []
         self.backend_time = {}
+        self._nf_spent = 0.0      # normal-form seconds spent by THIS process (budget is per process)
         self._names = set()
 
     # -- declarations ---------------------------------------------------------------------------------
@@ -87,6 +88,8 @@ class Check:
     def eq(self, name, lhs, rhs=0, *, fn=None, goal=None, assumptions=(), replay=None, ranges=None, log_additive=False):
         """obligation: lhs == rhs identically (under positivity assumptions used only for ln-splitting)."""
         t0 = time.time()
+        if isinstance(lhs, Sym) and isinstance(rhs, Sym) and lhs.n == rhs.n:
+            return self.record(name, "discharged", "syntactic-identity", 0.0, fn, goal, replay=replay)
         d = T.lift(lhs) - T.lift(rhs) if not _is_zero(rhs) else T.lift(lhs)
         # 1. numeric falsification at high precision (a refutation with a witness; never a proof)
         wit = falsify(d, self.rng, ranges, assumptions=assumptions)
@@ -94,7 +97,7 @@ class Check:
             return self.record(name, "refuted", "mp-falsify", time.time() - t0, fn, goal,
                                detail=f"lhs - rhs = {wit['residual']} (relative {wit['relative']}) at {wit['env']}", witness=wit, replay=replay)
         # 2. exact proof (within the per-obligation limit and the per-check budget)
-        if self.backend_time.get("poly-NF", 0.0) > NF_BUDGET[0]:
+        if self._nf_spent > NF_BUDGET[0]:
             return self.record(name, "undischarged", "poly-NF", 0.0, fn, goal, f"per-check normal-form budget of {NF_BUDGET[0]} s exhausted", replay=replay)
         try:
             ctx = P.NFContext(assumptions, prover=smt.prove if assumptions else None)
@@ -102,6 +105,7 @@ class Check:
             with time_limit(NF_TIMEOUT[0]):
                 ok, res = P.prove_zero(d, ctx)
         except TimeoutError:
+            self._nf_spent += time.time() - t0
             return self.record(name, "undischarged", "poly-NF", time.time() - t0, fn, goal, f"normal form not reached within {NF_TIMEOUT[0]} s", replay=replay)
             for law in ctx.laws_used:
                 self.trust("atom law: " + law)
@@ -110,6 +114,7 @@ class Check:
         except ZeroDivisionError as e:
             return self.record(name, "refuted", "poly-NF", time.time() - t0, fn, goal, f"exact zero division: {e}", replay=replay)
         secs = time.time() - t0
+        self._nf_spent += secs
         if ok:
             return self.record(name, "discharged", "poly-NF", secs, fn, goal, replay=replay)
         wit = find_witness(d, self.rng, ranges)
